@@ -263,6 +263,22 @@ func step(w []string, _ string) string {
 			return obs
 		}
 		return line + "\x00" + obs
+	case "salts": // salts <lic> <n>: n keys issued by the broker's keygen must not all carry one salt
+		return vlib.Guard(func() string {
+			s := service(w[1])
+			seen := map[uint16]bool{}
+			for i := 0; i < atoi(w[2]); i++ {
+				k, err := s.b.VerifC12Keygen().DecryptKey(s.issue(fmt.Sprintf("a/%d/|6|0", i), "r"))
+				if err != nil {
+					return "undecryptable"
+				}
+				seen[k.Salt()] = true
+			}
+			if len(seen) <= 1 {
+				return "same-salt"
+			}
+			return "distinct"
+		})
 	case "shape": // shape <lic> <p> <q>: cipher bytes of EncryptKey(p) XOR cipher bytes of EncryptKey(q)
 		return vlib.Guard(func() string {
 			s := service(w[1])
